@@ -1,11 +1,15 @@
 (* C09 -- Candidate status only moves forward; seats are never over- or under-committed.
-   Proved so far for every rule, arithmetic, profile and fuel: round numbers in the record never
-   decrease (whole-run theorem).  The status-transition and seat-bound clauses are decided by the
-   transition oracle on implementation traces and by the states-scope correspondence (see evidence);
-   their whole-run theorems are listed as open obligations in DESIGN.md. *)
+   Whole-run theorems, every arithmetic, profile and fuel:
+   (1) every rule: round numbers in the record never decrease;
+   (2) every rule except QPQ (whose restart un-elects, as the property allows): in the record of a count that
+       ends normally, statuses only move forward -- hopeful -> elected (possibly transfer-pending, the pending
+       flag never comes back) or hopeful -> defeated, nothing else; withdrawn stays withdrawn -- between ANY
+       earlier and later snapshot, from the initial statuses to every snapshot, and from every snapshot to the
+       final statuses.  (fwd / FwdL / ssn / snaps: Proofs/Forward.v, Proofs/ForwardCount.v.)
+   Seat bounds, QPQ transitions and crashed runs: states-scope correspondence + transition oracle (_partial). *)
 From Coq Require Import ZArith List Bool PArith Sorted.
 From Droop Require Import Model.Arith Model.Prelude Model.State Model.Prims Model.Election
-  Proofs.CmdMeta Proofs.Hist Proofs.HistCount.
+  Proofs.CmdMeta Proofs.Hist Proofs.HistCount Proofs.Forward Proofs.ForwardCount.
 Open Scope Z_scope.
 
 (* [actions s] is newest first; [newer a b] := a_round b <= a_round a *)
@@ -14,3 +18,21 @@ Theorem C09_rounds_never_decrease_partial : forall A cfg r pr fuel s k,
   StronglySorted (newer A) (actions s) /\ Forall (fun a => 0 <= a_round a <= round s) (actions s).
 Proof. exact rounds_monotone. Qed.
 Print Assumptions C09_rounds_never_decrease_partial.
+
+Theorem C09_status_only_moves_forward_partial : forall A cfg r pr fuel s,
+  not_qpq r -> NoDup (map pc_cid (pr_cands pr)) ->
+  exec (@crashed A) fuel (count_cmd A cfg r) (init_state A cfg pr) = Some (s, Next) ->
+  StronglySorted (fun newer older => FwdL (ssn A older) (ssn A newer)) (snaps A (actions s)) /\
+  Forall (fun sn => FwdL (stl A (cands (init_state A cfg pr))) (ssn A sn) /\ FwdL (ssn A sn) (stl A (cands s)))
+         (snaps A (actions s)) /\
+  FwdL (stl A (cands (init_state A cfg pr))) (stl A (cands s)).
+Proof. exact count_forward. Qed.
+Print Assumptions C09_status_only_moves_forward_partial.
+
+(* what "forward" allows, spelled out *)
+Example C09_forward_relation :
+  fwd (Hopeful, None) (Elected, Some true) /\ fwd (Elected, Some true) (Elected, Some false) /\
+  fwd (Hopeful, None) (Defeated, None) /\ ~ fwd (Defeated, None) (Hopeful, None) /\
+  ~ fwd (Elected, Some false) (Elected, Some true) /\ ~ fwd (Elected, Some false) (Hopeful, Some false) /\
+  ~ fwd (Withdrawn, None) (Elected, Some false) /\ ~ fwd (Elected, None) (Defeated, None).
+Proof. cbn. repeat split; auto; try (intros H; exact H); intros H; discriminate (H eq_refl). Qed.
